@@ -79,24 +79,21 @@ EntryOf(T, nm) == IF \E e \in T : e.n = nm THEN (CHOOSE e \in T : e.n = nm).k EL
 Blob(k) == IF k.t = "d" THEN NoK ELSE k                              \* _skip_tree
 Fmt(k) == k.t
 
-\* a tree is well formed for this model if names are unique and flattened paths are unique
-FlatPaths(T) == UNION { IF e.k.t = "d" THEN { e.n \o c.n : c \in e.k.ch } ELSE { e.n } : e \in T }
-FlatCount(T) == LET cnt[S \in SUBSET T] == IF S = {} THEN 0
-                                           ELSE LET e == CHOOSE x \in S : TRUE
-                                                IN (IF e.k.t = "d" THEN Cardinality(e.k.ch) ELSE 1) + cnt[S \ {e}]
-                IN cnt[T]
-WellFormed(T) == /\ Cardinality({e.n : e \in T}) = Cardinality(T)
-                 /\ Cardinality(FlatPaths(T)) = FlatCount(T)
-
 \* iter_tree_contents: entries in tree order, directories expanded in place
-RECURSIVE FlatSeqOf(_, _)
-FlatSeqOf(T, names) ==
+RECURSIVE FlatSeqOf(_, _, _)
+FlatSeqOf(T, names, prefix) ==
     IF names = <<>> THEN <<>>
     ELSE LET nm == Head(names)  k == EntryOf(T, nm) IN
-         (IF k.t = "d" THEN LET cn == SortNames({c.n : c \in k.ch}) IN
-                                 [i \in 1..Len(cn) |-> [p |-> nm \o cn[i], k |-> EntryOf(k.ch, cn[i])]]
-          ELSE <<[p |-> nm, k |-> k]>>) \o FlatSeqOf(T, Tail(names))
-FlatSeq(T) == FlatSeqOf(T, SortNames({e.n : e \in T}))
+         (IF k.t = "d" THEN FlatSeqOf(k.ch, SortNames({c.n : c \in k.ch}), prefix \o nm)
+          ELSE <<[p |-> prefix \o nm, k |-> k]>>) \o FlatSeqOf(T, Tail(names), prefix)
+FlatSeq(T) == FlatSeqOf(T, SortNames({e.n : e \in T}), <<>>)
+
+\* a tree is well formed for this model if names are unique in every directory and flattened paths are unique
+RECURSIVE NamesUnique(_)
+NamesUnique(T) == /\ Cardinality({e.n : e \in T}) = Cardinality(T)
+                  /\ \A e \in T : e.k.t = "d" => NamesUnique(e.k.ch)
+WellFormed(T) == /\ NamesUnique(T)
+                 /\ LET f == FlatSeq(T) IN Cardinality({f[i].p : i \in 1..Len(f)}) = Len(f)
 
 (***************************************************************************)
 (* diff_tree.tree_changes(old, new, want_unchanged): pre-order walk, names *)
@@ -113,24 +110,18 @@ EmitPair(k1, k2, p, wantU) ==
     ELSE IF k1 # NoK THEN <<Ch("D", p, k1, NoK)>>
     ELSE <<Ch("A", p, NoK, k2)>>
 
-RECURSIVE ChildChanges(_, _, _, _, _)
-ChildChanges(c1, c2, p, names, wantU) ==
-    IF names = <<>> THEN <<>>
-    ELSE EmitPair(Blob(EntryOf(c1, Head(names))), Blob(EntryOf(c2, Head(names))), p \o Head(names), wantU)
-         \o ChildChanges(c1, c2, p, Tail(names), wantU)
-
-RECURSIVE RootChanges(_, _, _, _)
-RootChanges(T1, T2, names, wantU) ==
+RECURSIVE ChangesIn(_, _, _, _, _)
+ChangesIn(T1, T2, names, prefix, wantU) ==
     IF names = <<>> THEN <<>>
     ELSE LET nm == Head(names)  k1 == EntryOf(T1, nm)  k2 == EntryOf(T2, nm)
              c1 == IF k1.t = "d" THEN k1.ch ELSE {}
              c2 == IF k2.t = "d" THEN k2.ch ELSE {}
-         IN EmitPair(Blob(k1), Blob(k2), nm, wantU)
+         IN EmitPair(Blob(k1), Blob(k2), prefix \o nm, wantU)
             \o (IF k1.t = "d" \/ k2.t = "d"
-                THEN ChildChanges(c1, c2, nm, SortNames({c.n : c \in c1 \cup c2}), wantU) ELSE <<>>)
-            \o RootChanges(T1, T2, Tail(names), wantU)
+                THEN ChangesIn(c1, c2, SortNames({c.n : c \in c1 \cup c2}), prefix \o nm, wantU) ELSE <<>>)
+            \o ChangesIn(T1, T2, Tail(names), prefix, wantU)
 
-TreeChanges(T1, T2, wantU) == RootChanges(T1, T2, SortNames({e.n : e \in T1 \cup T2}), wantU)
+TreeChanges(T1, T2, wantU) == ChangesIn(T1, T2, SortNames({e.n : e \in T1 \cup T2}), <<>>, wantU)
 
 (***************************************************************************)
 (* File system                                                             *)
@@ -425,12 +416,12 @@ UpdateWorkingTree(F, I, chs, pr) ==
 (* The tree an index stands for (Index.commit): nested by components       *)
 (***************************************************************************)
 TreeKindOfIdx(v) == IF v.t = "l" THEN LK(v.to) ELSE IF v.t = "g" THEN GK ELSE FK(v.c, IF v.x THEN "755" ELSE "644")
-IdxSane(I) == /\ \A p \in DOMAIN I : Len(p) \in {1, 2}
-              /\ \A p, q \in DOMAIN I : p # q => ~IsPrefix(p, q)
+IdxSane(I) == \A p, q \in DOMAIN I : p # q => ~IsPrefix(p, q)
+RECURSIVE Nest(_)
 Nest(I) ==
     { E(p, TreeKindOfIdx(I[p])) : p \in {q \in DOMAIN I : Len(q) = 1} }
-    \cup { E(<<d>>, DK({ E(<<q[2]>>, TreeKindOfIdx(I[q])) : q \in {q2 \in DOMAIN I : Len(q2) = 2 /\ q2[1] = d} }))
-           : d \in {q[1] : q \in {q2 \in DOMAIN I : Len(q2) = 2}} }
+    \cup { E(<<d>>, DK(Nest([r \in {Tail(q) : q \in {q2 \in DOMAIN I : Len(q2) > 1 /\ q2[1] = d}} |-> I[<<d>> \o r]])))
+           : d \in {q[1] : q \in {q2 \in DOMAIN I : Len(q2) > 1}} }
 
 (***************************************************************************)
 (* Stash.pop of a stash commit (one parent: HEAD) whose tree is T          *)
@@ -554,28 +545,31 @@ DB   == DK({E(<<"x">>, FB)})
 DC   == DK({E(<<"config">>, FA)})
 DH   == DK({E(<<"h">>, FB)})
 DL   == DK({E(<<"x">>, Lup)})
+DD   == DK({E(<<"e">>, DK({E(<<"x">>, FB)}))})          \* d/e/x
+DLe  == DK({E(<<"e">>, LK(<<"..", "..", "od">>))})     \* d/e -> ../../od
 
 TreesOver(ents, maxE) == {T \in SUBSET ents : Cardinality(T) <= maxE /\ WellFormed(T)}
 
 \* tiny: the histories of three operations
-EntsTiny == {E(<<"d">>, k) : k \in {FA, FB, Lod, Lcfg, DA, DC}} \cup {E(<<"git~1">>, FA)}
+EntsTiny == {E(<<"d">>, k) : k \in {FB, Lod, Lcfg, DA, DB}} \cup {E(<<"git~1">>, FA)}
 TreesTiny == TreesOver(EntsTiny, 1)
 TreesPatchNeg == {{E(<<"d">>, Lcfg)}, {E(<<"d">>, FB)}}
 \* core
-EntsCore == {E(<<"d">>, k) : k \in {FA, FB, Lod, Lof, Labs, Lgit, Lcfg, La, DA, DC}}
+EntsCore == {E(<<"d">>, k) : k \in {FA, FB, Lod, Lof, Labs, Lgit, Lcfg, La, DA, DB, DC, DD, DLe}}
             \cup {E(<<"a">>, k) : k \in {FA, Ld, DA}}
-            \cup {E(<<".git">>, FA), E(<<"git~1">>, FA), E(<<"d", "x">>, FA)}
+            \cup {E(<<".git">>, FA), E(<<"git~1">>, FA), E(<<"d", "x">>, FA), E(<<"..", "of">>, FA)}
 TreesCore == TreesOver(EntsCore, 2)
 \* mid: two operations, both settings
-EntsMid == {E(<<"d">>, k) : k \in {FA, FB, Lod, Lof, Lcfg, DA}} \cup {E(<<"a">>, k) : k \in {FA, Ld}}
-           \cup {E(<<"git~1">>, FA), E(<<".git">>, FA)}
-TreesMid == {T \in TreesOver(EntsMid, 2) : Cardinality(T) = 2 => \E e \in T : e.n \in {<<"a">>, <<"git~1">>}}
+EntsMid == {E(<<"d">>, k) : k \in {FB, Lod, Lgit, Lcfg, DA, DB, DD, DLe}} \cup {E(<<"a">>, k) : k \in {FA, Ld}}
+           \cup {E(<<"git~1">>, FA), E(<<"..", "of">>, FA)}
+TreesMid == {T \in TreesOver(EntsMid, 2) : Cardinality(T) = 2 => \E e \in T : e.n \in {<<"git~1">>}}
+            \cup {{E(<<"a">>, FA), E(<<"d">>, DB)}, {E(<<"a">>, Ld), E(<<"d">>, DB)}}
 \* small: three operations
-EntsSmall == {E(<<"d">>, k) : k \in {FA, FB, Lod, Lof, Lgit, Lcfg, La, DA, DC, DL}} \cup {E(<<"a">>, k) : k \in {DA}}
+EntsSmall == {E(<<"d">>, k) : k \in {FB, Lod, Lof, Lgit, Lcfg, La, DA, DB, DC, DD, DLe}} \cup {E(<<"a">>, k) : k \in {DA}}
              \cup {E(<<"git~1">>, FA)}
 TreesSmall == {T \in TreesOver(EntsSmall, 2) : Cardinality(T) = 2 => \E e \in T : e.n = <<"a">>}
 \* full
-EntsFull == {E(<<"d">>, k) : k \in {FA, FB, FX, FN, Lod, Lof, Labs, Lgit, Lcfg, Lhk, La, DA, DB, DC, DH, DL}}
+EntsFull == {E(<<"d">>, k) : k \in {FA, FB, FX, FN, Lod, Lof, Labs, Lgit, Lcfg, Lhk, La, DA, DB, DC, DH, DL, DD, DLe}}
             \cup {E(<<"a">>, k) : k \in {FA, FB, Ld, Lod, DA}}
             \cup {E(<<".git">>, FA), E(<<"git~1">>, FA), E(<<"d", "x">>, FA), E(<<"d", "x">>, FB)}
 TreesFull == TreesOver(EntsFull, 2)
